@@ -112,6 +112,7 @@ def transparent_helpers(functions, globals_=None, types=None):
                                     used_as_value.add(m.get("n"))
     out = set()
     for name, defs in by_name.items():
+        defs = [d for d in defs if d.get("blocks")] or defs  # (a forward declaration next to the definition is not a second one)
         if len(defs) != 1:
             continue
         fj = defs[0]
@@ -572,7 +573,7 @@ def flatten_unit(functions, types, globals_=None):
     helpers = transparent_helpers(functions, globals_, types)
     if not helpers:
         return functions, set()
-    by_name = {fj["name"]: fj for fj in functions if fj["name"] in helpers}
+    by_name = {fj["name"]: fj for fj in functions if fj["name"] in helpers and fj.get("blocks")}
     out = []
     for fj in functions:
         if fj["name"] in helpers:
